@@ -41,6 +41,7 @@ typedef struct {
   int ownfail;
   char ownmsg[300];
   tjhandle pre;            /* instance created by the main thread, used only by this thread */
+  char mark[NH][48];       /* text that identifies instance H's own most recent failure ("" = none/unknown) */
 } thr_t;
 
 static thr_t T[MAXT];
@@ -123,6 +124,9 @@ static void run_op(thr_t *t, int k)
   op_t *o = &t->ops[k];
   int *a = o->a;
   const char *n = o->name;
+  if (strcmp(n, "ownerr") && strcmp(n, "geterr") && strcmp(n, "gerr") && strcmp(n, "helper") && strcmp(n, "yield") &&
+      strcmp(n, "legacy"))
+    t->mark[a[0] % NH][0] = 0;        /* any other call on instance H may replace or clear its error state */
   if (!strcmp(n, "init")) {           /* init H type */
     int H = a[0] % NH;
     if (t->h[H]) tj3Destroy(t->h[H]);
@@ -271,6 +275,7 @@ static void run_op(thr_t *t, int k)
     own(t, k, "instance error string after yielding", tj3GetErrorStr(hd), want);
     own(t, k, "thread-local error string after yielding", tj3GetErrorStr(NULL), want);
     if (tj3GetErrorCode(hd) != TJERR_FATAL) own(t, k, "error code", "not-fatal", "fatal");
+    snprintf(t->mark[H], sizeof(t->mark[H]), "%s", want);
   } else if (!strcmp(n, "trunc")) {   /* trunc H slot cut pf : decode a truncated copy */
     int H = a[0] % NH, S = a[1] % NS, pf = a[3];
     tjhandle hd = t->h[H];
@@ -305,8 +310,17 @@ static void run_op(thr_t *t, int k)
       own(t, k, "instance error string names the failing function", tj3GetErrorStr(hd), fn);
       sched_yield();
       own(t, k, "instance error string after yielding", tj3GetErrorStr(hd), fn);
+      snprintf(t->mark[H], sizeof(t->mark[H]), "%s", fn);
     }
     if (jb) tj3Free(jb);
+  } else if (!strcmp(n, "ownerr")) {  /* ownerr H : the string retrieved for instance H must still be H's own last failure,
+                                         whatever failed on OTHER instances (of this or any thread) since */
+    int H = a[0] % NH;
+    tjhandle hd = t->h[H];
+    if (!hd || !t->mark[H][0]) { logf_(t, "%d ownerr skip", k); return; }
+    const char *s1 = tj3GetErrorStr(hd);
+    logf_(t, "%d ownerr %d \"%s\"", k, H, s1);
+    own(t, k, "cross-instance: error string retrieved for an instance after another instance failed", s1, t->mark[H]);
   } else if (!strcmp(n, "geterr")) {
     int H = a[0] % NH;
     if (t->h[H]) errinfo(t, t->h[H], "geterr"); else logf_(t, "%d geterr skip", k);
@@ -374,6 +388,7 @@ static void reset_state(thr_t *t)
 {
   memset(t->h, 0, sizeof(t->h)); memset(t->htype, 0, sizeof(t->htype));
   memset(t->slot, 0, sizeof(t->slot)); memset(t->slotsize, 0, sizeof(t->slotsize));
+  memset(t->mark, 0, sizeof(t->mark));
   t->log = NULL; t->loglen = t->logcap = 0;
 }
 
